@@ -892,4 +892,88 @@ theorem RepWS.setToks {ι : Int → Nat} {h : Rule.Heap} {fp : Int} {errs : List
   obtain ⟨o, ho, rt, rs⟩ := r.obj
   exact ⟨⟨o, by simpa using ho, rt.setToksH p ts, rs.setToks r.inj hget ts⟩, r.inj.setToksH p ts, r.errs⟩
 
+
+/-! ## additions (v2): token views at integer indices -/
+
+theorem TokView.getI {h : Rule.Heap} {r : Rule.TokRef} {pre toks : List Bytes} (v : TokView h r pre toks) (i : Int) (h0 : 0 ≤ i) {t : Bytes}
+    (hi : toks[i.toNat]? = some t) : Rule.TokRef.get r i h = .ok t := by
+  have := v.get hi
+  rwa [Int.toNat_of_nonneg h0] at this
+
+theorem TokView.getI_none {h : Rule.Heap} {r : Rule.TokRef} {pre toks : List Bytes} (v : TokView h r pre toks) (i : Int) (h0 : 0 ≤ i)
+    (hi : toks[i.toNat]? = none) : Rule.TokRef.get r i h = .error .panic := by
+  have := v.get_none hi
+  rwa [Int.toNat_of_nonneg h0] at this
+
+theorem TokView.dropI {h : Rule.Heap} {r : Rule.TokRef} {pre toks : List Bytes} (v : TokView h r pre toks) (j : Int) (h0 : 0 ≤ j)
+    (hj : j.toNat ≤ toks.length) :
+    Rule.TokRef.drop r j h = .ok { r with lo := r.lo + j } ∧
+      TokView h { r with lo := r.lo + j } (pre ++ toks.take j.toNat) (toks.drop j.toNat) := by
+  have := v.drop hj
+  rwa [Int.toNat_of_nonneg h0] at this
+
+theorem TokView.setI {h : Rule.Heap} {r : Rule.TokRef} {pre toks : List Bytes} (v : TokView h r pre toks) (i : Int) (h0 : 0 ≤ i)
+    (hi : i.toNat < toks.length) (x : Bytes) :
+    Rule.TokRef.set r i x h = .ok (setToksH h r.owner (pre ++ toks.set i.toNat x)) ∧
+      TokView (setToksH h r.owner (pre ++ toks.set i.toNat x)) r pre (toks.set i.toNat x) := by
+  have := v.set hi x
+  rwa [Int.toNat_of_nonneg h0] at this
+
+/-- the heap of a view is `setToksH` of itself with the tokens it denotes -/
+theorem TokView.setToksH_self {h : Rule.Heap} {r : Rule.TokRef} {pre toks : List Bytes} (v : TokView h r pre toks) :
+    setToksH h r.owner (pre ++ toks) = h := by
+  obtain ⟨L, hg, ht, _⟩ := v
+  rw [← ht]; exact FnRuleRep.setToksH_self hg
+
+/-- a second store through a view of the same line -/
+theorem TokView.setToksH_twice {h : Rule.Heap} {r : Rule.TokRef} {pre toks : List Bytes} (v : TokView h r pre toks) (ts ts' : List Bytes) :
+    setToksH (setToksH h r.owner ts) r.owner ts' = setToksH h r.owner ts' := by
+  obtain ⟨L, hg, _, _⟩ := v
+  exact setToksH_setToksH hg ts ts'
+
+/-- after a store of the whole token list, a view of the same line with any split of the new tokens -/
+theorem TokView.afterStore {h : Rule.Heap} {r : Rule.TokRef} {pre toks : List Bytes} (v : TokView h r pre toks) (pre' toks' : List Bytes)
+    (lo' : Int) (hlo : lo' = (pre'.length : Int)) :
+    TokView (setToksH h r.owner (pre' ++ toks')) { r with lo := lo' } pre' toks' := by
+  obtain ⟨L, hg, _, _⟩ := v
+  exact ⟨_, heapGet_setToksH_same hg _, rfl, hlo⟩
+
+theorem TokView.owner_get {h : Rule.Heap} {r : Rule.TokRef} {pre toks : List Bytes} (v : TokView h r pre toks) :
+    ∃ L, heapGet h.lines r.owner = .ok L ∧ L.Token = pre ++ toks := by
+  obtain ⟨L, hg, ht, _⟩ := v; exact ⟨L, hg, ht⟩
+
+
+/-! ## additions (v3): `errAbs` is functional -/
+
+def allSyn : List Modfile.SynErrKind := [.blockComment, .eofInString, .newlineInString, .badChar, .unterminatedBlock, .afterRParen,
+  .internal .readRuneAtEOF, .internal .parseLineAtEOL, .internal .fuel]
+
+def allKinds : List Modfile.RuleErrKind := allSyn.map .syn ++ [.unknownBlock, .unknownDirective, .repeatedGo, .goArgs, .invalidGoVersion,
+  .repeatedToolchain, .toolchainArgs, .invalidToolchain, .repeatedModule, .moduleUsage, .invalidQuotedString, .godebugUsage,
+  .requireUsage, .versionString, .versionNotCanonical, .fixError, .fixModuleError, .invalidModulePath, .pathMajorMismatch,
+  .replaceUsage, .replaceAtVersion, .replaceNeedsDir, .replaceWindowsPath, .replaceDirWithVersion, .intervalStart,
+  .intervalAfterLBracket, .intervalComma, .intervalAfterComma, .intervalRBracket, .tokenAfterVersion, .toolArgs, .useUsage,
+  .retractNoModule]
+
+theorem mem_allKinds (k : Modfile.RuleErrKind) : k ∈ allKinds := by
+  cases k with
+  | syn s => cases s with
+    | internal t => cases t <;> decide
+    | _ => decide
+  | _ => decide
+
+/-- no error string belongs to two kinds -/
+theorem errStrs_disjoint : ∀ k ∈ allKinds, ∀ k' ∈ allKinds, ∀ s ∈ errStrs k, s ∈ errStrs k' → k = k' := by decide +kernel
+
+/-- **`errAbs` is functional: an error value has at most one kind** -/
+theorem errAbs_unique {e : Option String} {k k' : Modfile.RuleErrKind} (h : errAbs e k) (h' : errAbs e k') : k = k' := by
+  obtain ⟨s, rfl, hs⟩ := h
+  obtain ⟨s', he, hs'⟩ := h'
+  cases he
+  exact errStrs_disjoint k (mem_allKinds k) k' (mem_allKinds k') s hs hs'
+
+/-- an error value of some kind is not nil -/
+theorem errAbs.isSome {e : Option String} {k : Modfile.RuleErrKind} (h : errAbs e k) : e.isNone = false := by
+  obtain ⟨s, rfl, _⟩ := h; rfl
+
 end ModVerif.Tie.FnRuleRep
